@@ -151,6 +151,70 @@ def flow(ri: int, mi: int, li: int, si: int, pre: int, style: int, store: int):
             sb.close()
 
 
+LOOKALIKE_VALUES = [1, True, 1.0, "1", 0, False, 0.0, -0.0, None, [1], [True], [1.0]]
+
+
+def _trepr(v):
+    return "%s:%r" % (type(v).__name__, v)
+
+
+@obligation(
+    "C16.lookalike_contexts",
+    covers=("python-equal-but-distinct-contexts", "identical-contexts", "different-contexts"),
+    split={"i": list(range(len(LOOKALIKE_VALUES)))},
+    bounds="two context dictionaries {'mode': v1}, {'mode': v2} with v1, v2 from %d look-alike values (1 / True / 1.0 / '1', 0 / False / "
+           "0.0 / -0.0, None, [1] / [True] / [1.0]) used one after the other in ONE process on the tree root -> mid -> leaf (memory and fs): the "
+           "second context is served from the first one's results iff it is the same context (same type and value); otherwise every "
+           "body of the tree runs again, and the recorded context arguments of the root and of the nested calls are exactly the second "
+           "dictionary; the first context remains a hit afterwards" % len(LOOKALIKE_VALUES),
+    variables="choice: v1, v2, store",
+    budget_s={"quick": 120, "thorough": 300},
+    choice_vars=3,
+)
+def lookalike_contexts(i: int, j: int, store: int):
+    j = pick(j, len(LOOKALIKE_VALUES))
+    store = pick(store, 2)
+    with concrete_region():
+        v1, v2 = LOOKALIKE_VALUES[i], LOOKALIKE_VALUES[j]
+        same = _trepr(v1) == _trepr(v2)
+        if same:
+            cover("identical-contexts")
+        elif v1 == v2:
+            cover("python-equal-but-distinct-contexts")
+        else:
+            cover("different-contexts")
+        sb = Sandbox(kinds=STORES[store])
+        prog = Program("vpc16l")
+        try:
+            prog.exec(SRC)
+            root, mid, leaf = prog.root, prog.mid, prog.leaf
+            c1, c2 = {"mode": v1}, {"mode": v2}
+            root.with_context_args(dict(c1))(1)
+            n0 = len(prog.trace)
+            r = root.with_context_args(dict(c2))(1)
+            check("value", r == 5, r)
+            ran = sorted(t[0] for t in list(prog.trace)[n0:])
+            want = [] if same else ["leaf", "mid", "root", "side"]
+            check("second-context-served-from-the-first-iff-it-is-the-same-context", ran == want, (_trepr(v1), _trepr(v2), ran))
+            for fn, nm in ((root, "root"), (mid, "mid"), (leaf, "leaf")):
+                mem = fn.with_context_args(dict(c2)).memento(1)
+                check(nm + "-stored-under-the-second-context", mem is not None, (nm, _trepr(v2)))
+                got = mem.invocation_metadata.fn_reference_with_args.context_args
+                check(nm + "-recorded-context-is-exactly-the-second-dictionary", list(got) == ["mode"] and _trepr(got["mode"]) == _trepr(v2),
+                      (nm, _trepr(got.get("mode")), _trepr(v2)))
+                for inv in mem.invocation_metadata.invocations:
+                    g_ = inv.context_args
+                    check(nm + "-nested-invocation-context-is-exactly-the-second-dictionary", list(g_) == ["mode"] and _trepr(g_["mode"]) == _trepr(v2),
+                          (nm, _trepr(g_.get("mode")), _trepr(v2)))
+            n1 = len(prog.trace)
+            root.with_context_args(dict(c1))(1)
+            root.with_context_args(dict(c2))(1)
+            check("both-contexts-are-hits-afterwards", len(prog.trace) == n1, list(prog.trace)[n1:])
+        finally:
+            prog.close()
+            sb.close()
+
+
 @obligation(
     "C16.prevent",
     covers=("prevented", "allowed-when-memoized-too"),
